@@ -17,6 +17,31 @@ import (
 )
 
 // guard runs f and converts a panic into an output line.
+// safeAccepts reports whether NewMiddleware accepts c; a panic inside the library is recorded as a
+// `validate` case of its own (so that the comparison flags it with the configuration as replay) and counts as a rejection.
+func safeAccepts(e *emitter, c cors.Config) (ok bool) {
+	defer func() {
+		if r := recover(); r != nil {
+			ok = false
+			validateCase(e, c)
+		}
+	}()
+	_, err := cors.NewMiddleware(c)
+	return err == nil
+}
+
+// accepts reports whether NewMiddleware accepts c (a panic inside the library counts as a rejection here;
+// the validate and history suites record such panics with their input).
+func accepts(c cors.Config) (ok bool) {
+	defer func() {
+		if r := recover(); r != nil {
+			ok = false
+		}
+	}()
+	_, err := cors.NewMiddleware(c)
+	return err == nil
+}
+
 func guard(f func() string) (out string) {
 	defer func() {
 		if r := recover(); r != nil {
@@ -90,6 +115,28 @@ var adversarial bool
 
 // runRequest sends one request through handler m.Wrap(inner) and prints
 // status \t next \t headers-at-handler-entry-or-final \t flags.
+// wrapState is a handler wrapped once, right after the middleware was created, and reused for later
+// requests (the realistic use: Wrap at start-up, Reconfigure later); `cur` is what it calls.
+type wrapState struct {
+	h    http.Handler
+	cur  http.HandlerFunc
+	uses int
+}
+
+var longLived = map[*cors.Middleware]*wrapState{}
+
+// registerLongLived wraps a trampoline now; history and replay call it when a middleware is created.
+func registerLongLived(m *cors.Middleware) {
+	ws := &wrapState{}
+	func() {
+		defer func() { recover() }()
+		ws.h = m.Wrap(http.HandlerFunc(func(w http.ResponseWriter, r *http.Request) { ws.cur(w, r) }))
+	}()
+	if ws.h != nil {
+		longLived[m] = ws
+	}
+}
+
 func runRequest(m *cors.Middleware, rq request) string {
 	return guard(func() string {
 		rec := &recorder{h: headerOf(rq.pre)}
@@ -145,7 +192,17 @@ func runRequest(m *cors.Middleware, rq request) string {
 				}
 			}
 		})
-		m.Wrap(inner).ServeHTTP(rec, req)
+		if ws := longLived[m]; ws != nil && ws.uses%2 == 0 {
+			// every other request of a registered middleware goes through the handler wrapped at creation time
+			ws.uses++
+			ws.cur = inner
+			ws.h.ServeHTTP(rec, req)
+		} else {
+			if ws != nil {
+				ws.uses++
+			}
+			m.Wrap(inner).ServeHTTP(rec, req)
+		}
 		var st, hdrs string
 		if calls == 0 {
 			if rec.status == 0 {
@@ -309,6 +366,21 @@ func lexPattern(e *emitter, s string) {
 }
 
 func suiteLex(g *gen, e *emitter, n int) {
+	// a deterministic sweep first: every pooled host (ordinary and weird) x scheme x port form x wildcard prefix
+	if n >= 1000 {
+		for _, h := range append(append([]string{}, hostPool...), weirdHostPool...) {
+			for _, sch := range []string{"http", "https"} {
+				for _, port := range []string{"", ":8080", ":*"} {
+					for _, w := range []string{"", "*."} {
+						s := sch + "://" + w + h + port
+						lexPattern(e, s)
+						lexParse(e, s)
+						n--
+					}
+				}
+			}
+		}
+	}
 	for i := 0; i < n; i++ {
 		var s string
 		switch g.n(5) {
@@ -701,15 +773,12 @@ func historyCase(g *gen, e *emitter, caseNo int) {
 	var pool []cors.Config
 	for len(pool) < 3 {
 		c := g.config(100)
-		if _, err := cors.NewMiddleware(c); err == nil {
+		if safeAccepts(e, c) {
 			pool = append(pool, c)
 		}
 	}
 	invalid := g.config(0)
-	for {
-		if _, err := cors.NewMiddleware(invalid); err != nil {
-			break
-		}
+	for safeAccepts(e, invalid) {
 		invalid = g.config(0)
 	}
 	cloneCfg := func(c cors.Config) cors.Config {
@@ -742,6 +811,7 @@ func historyCase(g *gen, e *emitter, caseNo int) {
 		ids[k] = fmt.Sprintf("c%d.m%d", caseNo, k)
 		if g.p(50) {
 			mws[k] = new(cors.Middleware)
+			registerLongLived(mws[k])
 			e.emit("h.zero\t"+ids[k], "ok")
 		} else {
 			c := cloneCfg(pool[g.n(len(pool))])
@@ -750,9 +820,11 @@ func historyCase(g *gen, e *emitter, caseNo int) {
 			if err != nil {
 				e.emit(line, errCount(err))
 				mws[k] = new(cors.Middleware)
+				registerLongLived(mws[k])
 				continue
 			}
 			mws[k] = m
+			registerLongLived(m)
 			shadow[k] = newDecider(&c)
 			e.emit(line, "ok")
 			if adversarial {
